@@ -59,6 +59,8 @@ func runC01(c *Ctx) {
 	c.r0111(pk)
 	c.r0112(pk)
 	c.r0113(pk)
+	c.r0114(pk)
+	c.r0115(pk)
 }
 
 // R01.13: traversals of binding patterns reach every nested binding.
@@ -1789,6 +1791,27 @@ func init() {
 	mutant(&Mutant{Name: "c01-regexp-x-escape", Property: "C01", File: "js/util.go",
 		Old: "\ttrue, false, false, true, true, true, false, false, // x, {, |, }\n", New: "\tfalse, false, false, true, true, true, false, false, // x, {, |, }\n",
 		Rule: "R01.7", Construct: "regexpEscapeTable['x']"})
+	mutant(&Mutant{Name: "c01-group-elision-special-pair", Property: "C01", File: "js/js.go",
+		Old: "\t\tif prec <= precInside {\n\t\t\tm.minifyExpr(expr.X, prec)", New: "\t\tif prec <= precInside || precInside == js.OpCoalesce && prec == js.OpBitOr {\n\t\t\tm.minifyExpr(expr.X, prec)",
+		Rule: "R01.14", Construct: "parenthesis decision"})
+	mutant(&Mutant{Name: "c01-group-elision-off-by-one", Property: "C01", File: "js/util.go",
+		Old: "if _, ok := i.(*js.GroupExpr); !ok && precInside < prec {", New: "if _, ok := i.(*js.GroupExpr); !ok && precInside+1 < prec {",
+		Rule: "R01.14", Construct: "groupExpr/parenthesis decision"})
+	mutant(&Mutant{Name: "c01-comma-ungroup-fixed-level", Property: "C01", File: "js/js.go",
+		Old: "ok && precLeft <= exprPrec(comma.List[len(comma.List)-1]) {", New: "ok && js.OpAnd <= exprPrec(comma.List[len(comma.List)-1]) {",
+		Rule: "R01.14", Construct: "comma un-grouping in BinaryExpr.X"})
+	mutant(&Mutant{Name: "c01-coalesce-lowering-for-every-operator", Property: "C01", File: "js/js.go",
+		Old: "\t\tif expr.Op == js.NullishToken {\n\t\t\t// a??b??c needs no parentheses", New: "\t\tif expr.Op == js.NullishToken || expr.Op == js.BitOrToken {\n\t\t\t// a??b??c needs no parentheses",
+		Rule: "R01.14", Construct: "precLeft = js.OpCoalesce"})
+	mutant(&Mutant{Name: "c01-right-operand-at-left-level", Property: "C01", File: "js/js.go",
+		Old: "\t\tprecRight := binaryRightPrecMap[expr.Op]\n", New: "\t\tprecRight := binaryLeftPrecMap[expr.Op]\n",
+		Rule: "R01.14", Construct: "precRight = "})
+	mutant(&Mutant{Name: "c01-call-drops-optional-group", Property: "C01", File: "js/js.go",
+		Old: "\t\tif isOptionalGroup(expr.X) {\n\t\t\tm.minifyExpr(expr.X, js.OpMember)\n\t\t} else {\n\t\t\tm.minifyExpr(expr.X, js.OpCall)\n\t\t}\n\t\tparentInFor := m.inFor", New: "\t\tm.minifyExpr(expr.X, js.OpCall)\n\t\tparentInFor := m.inFor",
+		Rule: "R01.15", Construct: "case *js.CallExpr"})
+	mutant(&Mutant{Name: "c01-optional-group-test-misses-index", Property: "C01", File: "js/util.go",
+		Old: "\t\tcase *js.IndexExpr:\n\t\t\treturn expr.Optional\n\t\tcase *js.CallExpr:\n\t\t\treturn expr.Optional\n\t\tcase *js.TemplateExpr:", New: "\t\tcase *js.CallExpr:\n\t\t\treturn expr.Optional\n\t\tcase *js.TemplateExpr:",
+		Rule: "R01.15", Construct: "keeps an optional group"})
 	mutant(&Mutant{Name: "c01-array-rest-only-identifier", Property: "C01", File: "js/vars.go",
 		Old: "\t\tif binding.Rest != nil {\n\t\t\tvs = append(vs, bindingVars(binding.Rest)...)\n\t\t}", New: "\t\tif v, ok := binding.Rest.(*js.Var); ok {\n\t\t\tvs = append(vs, v)\n\t\t}",
 		Rule: "R01.13", Construct: "bindingVars/case *js.BindingArray"})
